@@ -296,9 +296,19 @@ pub fn run(ctx: &Ctx) {
     ctx.subspace("proptest schedules up to depth 200 (deliver any of the 4 oldest in-flight datagrams)", n as u64, false);
 
     crate::props::node_level::c05_node(ctx);
+
+    // coverage-guided search over the same histories (libFuzzer target hist_c05: bytes -> operations -> this oracle);
+    // the committed corpus is replayed in-process in every tier, the campaign runs in the thorough tier
+    crate::targets::replay_corpus(ctx, "hist_c05");
+    if std::env::var("VCHECK_FUZZ").is_ok() && !ctx.quick() {
+        crate::fuzzdrv::run_campaign_par(ctx, "hist_c05", 640000, 16, 160);
+    }
 }
 
 pub fn replay(ctx: &Ctx, case: &Value) {
+    if crate::fuzzdrv::replay(ctx, case) {
+        return;
+    }
     match case["kind"].as_str() {
         Some("schedule") => {
             if let Ok(c) = serde_json::from_value::<Case>(case["case"].clone()) {
